@@ -9,7 +9,8 @@ def _run(seed):
         drivers.deep_book_history(seed)
         return
     tick = {0: 0.5, 4: 0.25, 10: 0.125, 14: 2.5}.get(seed % 20, 1.0)  # even residues: odd seeds run the deep-book driver        # power-of-two ticks are checked exactly (C19); 2.5 has a two-digit mantissa
-    m, _events = drivers.market_history(seed, offgrid=(seed % 3 == 0 or tick not in (0.5, 1.0)), tick=tick)
+    neg = seed % 34 == 8          # limit prices around and below zero (accepted submissions: the constructor only warns): rounding "down" / "up" is by value, not by magnitude
+    m, _events = drivers.market_history(seed, offgrid=(seed % 3 == 0 or tick not in (0.5, 1.0) or neg), tick=tick, prices=((-4, 3) if neg else (8, 12)))
     range_queries(m)
 
 
